@@ -411,6 +411,28 @@ def busy_node_still_dials(env):
                 props=['C13'], clause='a reachable High-affinity peer is dialed within one check interval plus jitter of becoming known, and redialed after the connection is lost, whatever else the node is doing')
 
 
+def abandoned_rpcs(env):
+    """C12 on real networks: RPCs abandoned before they are polled, while a 4 MB request is being sent, after the remote handler started, and by a
+    timeout; 40 abandoned RPCs against a listener granting 4 concurrent streams, with one RPC in flight throughout"""
+    got = _run('abandoned_rpcs', {}, env, timeout=120)
+    fails = []
+    if got.get('panicked'):
+        fails.append(dict(scenario='abandoned_rpcs', args={}, expected=dict(note='the scenario finishes'), observed=got))
+    else:
+        a, b, c, d, m = (got.get(k) or {} for k in ('dropped_after_handler_started', 'timed_out', 'dropped_before_polled', 'dropped_while_sending', 'many_abandoned'))
+
+        def prompt(x):
+            return x.get('handler_started') and not x.get('handler_ran_to_completion') and x.get('handler_dropped_unfinished_after_ms') is not None
+        for (name, x, ok) in [('dropped_after_handler_started', a, prompt(a)), ('timed_out', b, prompt(b) and b.get('caller_timed_out')),
+                              ('dropped_before_polled', c, c.get('handler_started') is False),
+                              ('dropped_while_sending', d, not d.get('handler_ran_to_completion') and (not d.get('handler_started') or d.get('handler_dropped_unfinished_after_ms') is not None)),
+                              ('many_abandoned', m, m.get('later_rpc_ok') and m.get('handlers_that_ran_to_completion') == 0 and m.get('handlers_still_running_300ms_later') == 0 and m.get('rpc_in_flight_meanwhile_ok'))]:
+            if not ok:
+                fails.append(dict(scenario='abandoned_rpcs', args=dict(phase=name), expected=dict(note='a started remote handler is dropped promptly (within the second the scenario waits) instead of running its 5 s to completion; abandoned RPCs use up no stream capacity; other RPCs in flight are not disturbed'), observed=x))
+    return dict(name='abandoned_rpcs', validates='cancellation across the connection (stream reset / STOP_SENDING in quinn, the select in the serving task), which no contract covers: 4 ways of abandoning an RPC, then 40 in a row against 4 concurrent streams', cases=45, failed=fails, ok=not fails,
+                props=['C12'], clause='when a caller abandons an RPC at any point, the remote handler, if it started, is dropped promptly instead of running to completion; any number of abandoned RPCs never exhausts stream capacity or blocks later RPCs; abandoning one RPC never affects others in flight')
+
+
 def decode_sweep(env):
     """C06 / C07 on the real decoders: bounded exhaustive sweep (see the scenario); no offered byte string may panic the decode path"""
     got = _run('decode_sweep', {}, env, timeout=120)      # about 1 s on the pinned tree
@@ -730,7 +752,9 @@ def routing_table(env):
         return list(op)
     basic = [('route', p) for p in ROUTE_PATTERNS] + [('rpc', 's'), ('rpc', 't'), ('layer',)]
     subs = [[a] for a in basic] + [[a, b] for a in basic for b in basic]
-    top = basic + [('merge', sub) for sub in subs] + [('nest', '/n')]
+    # a merged router may itself have received routes by a merge (two levels)
+    nested = [[('merge', [a]), b] for a in basic for b in basic] + [[b, ('merge', [a])] for a in basic for b in basic] + [[('merge', [a, b])] for a in basic for b in basic] + [[('merge', [a]), ('merge', [b])] for a in basic for b in basic]
+    top = basic + [('merge', sub) for sub in subs] + [('merge', sub) for sub in nested] + [('nest', '/n')]
     seqs = [[a] for a in top] + [[a, b] for a in top for b in basic] + [[a, b] for a in basic for b in top if b[0] == 'merge']
     for _ in range(1500 if env.get('tier') != 'thorough' else 6000):
         seqs.append([rng.choice(top) for _ in range(rng.choice((3, 3, 4, 5)))])
